@@ -405,6 +405,12 @@ def run(ctx):
     def count(k, v=1):
         dist[k] = dist.get(k, 0) + v
 
+    timing = ctx.coverage.setdefault("phase_wall_s", {})
+
+    def lap(name):
+        timing[name] = round(ctx.elapsed(), 1)
+    lap("proofs")
+
     # ---------------- venn ----------------
     for case in gen_venn(ctx, 2500 if T else 350):
         desc = dict(case, fn="spikes_venn%d" % len(case["trains"]))
@@ -458,6 +464,7 @@ def run(ctx):
             for b in venn_oracle(case, res):
                 ctx.fail("venn: " + b, dict(case, fn=small["fn"]), {"kind": "venn_conservation"})
 
+    lap("venn")
     # ---------------- stack ----------------
     for case in gen_stack(ctx, 1500 if T else 250):
         desc = dict(case, fn="stack")
@@ -472,6 +479,7 @@ def run(ctx):
             nontrivial.add(("stack", tuple(case["word"]), tuple(case["data"])))
     samples.append({"fn": "stack", "word": case["word"], "fold": res[-len(set(case["word"])):]})
 
+    lap("stack")
     # ---------------- rolling_window ----------------
     ex = common.Extracted(PROP)
     roll_cases = []
@@ -528,6 +536,7 @@ def run(ctx):
     meas["rolling_values_vs_model_max_abs_err"] = worst
     samples.append({"fn": "rolling_window", "n": 8, "window_len": 3, "taps_of_outputs": ex.run_many([[7, 8, 3]])[0][2:]})
 
+    lap("rolling")
     # ---------------- lp ----------------
     pads = [0.2, 0.2, 0.1, 0.25, 0.5, 1.0, 0.05, 0.3, 0.7, 1e-6, 0.0] + [rng.random() for _ in range(6)]
     lp_ns = sorted({1, 2, 3, 4, 5, 7, 10, 15, 16, 25, 35, 45, 64, 100, 127, 333} |
@@ -558,6 +567,7 @@ def run(ctx):
                 nontrivial.add(("lp", n, pad))
     meas["lp_constant_max_abs_err"] = worst_dc
 
+    lap("lp")
     # ---------------- savgol ----------------
     sg_inputs, sg_impl, sg_desc = [], [], []
     worst_poly = 0.0
@@ -648,6 +658,7 @@ def run(ctx):
             ctx.fail("smooth_interpolate_savgol leaves non-finite values / changes the length", desc,
                      {"kind": "savgol_nan_fill"})
 
+    lap("savgol")
     # ---------------- cadzow / svd ----------------
     for kind, ncol, nrow, sites in layouts(ctx):
         desc = {"fn": "cadzow.trajectory", "layout": kind, "ncol": ncol, "nrow": nrow, "sites": sites}
@@ -679,8 +690,10 @@ def run(ctx):
     samples.append({"fn": "cadzow.trajectory", "layout": "grid 2x4", "model_output": ex.run_many(
         [[6, 8, 0, 16, 0, 16, 0, 16, 0, 16, 0, 0, 20, 20, 40, 40, 60, 60]])[0]})
 
+    lap("cadzow")
     # ---------------- model vs implementation (exact part) ----------------
     common.correspondence(ctx, PROP, HEADER, inputs, outputs, lambda i: descs[i])
+    lap("correspondence")
     ctx.coverage["model_evaluations_extracted"] += len(sg_inputs) + len(roll_cases)
     return common.finish(
         ctx, TRUSTED,
